@@ -20,6 +20,13 @@ void vh_kint(const char* key, long long v);
 void vh_kstr(const char* key, const char* v);
 void vh_kbool(const char* key, bool v);
 
+/* ---------- exactly-sized input windows at every alignment ----------
+ * returns a pointer to n bytes whose END is flush with the end of a heap block (sanitizer red zone right behind) and
+ * whose START address is `align` (0..15) modulo 16; *blk receives the block to free. vh_exact_rot rotates through the
+ * alignments 0..15 from call to call, so that code keyed on the address of its input is exercised at all of them. */
+unsigned char* vh_exact(size_t n, unsigned align, unsigned char** blk);
+unsigned char* vh_exact_rot(size_t n, unsigned char** blk);
+
 /* ---------- deterministic PRNG (seeded from VERIF_SEED) ---------- */
 extern uint64_t vh_rng_state;
 uint64_t vh_rand(void);
